@@ -2009,12 +2009,14 @@ class Surface(SplineGeometry):
         self._tsl_component.tessellate(self.evalpts, size_u=self.sample_size_u, size_v=self.sample_size_v,
                                        trims=self.trims, **kwargs)
 
-        # Re-evaluate vertex coordinates
+        # Re-evaluate vertex coordinates (vertex uv values are fractions of the parametric domain)
+        dom = self.domain
         for idx in range(len(self._tsl_component.vertices)):
             uv = self._tsl_component.vertices[idx].uv
-            if self._kv_normalize and not utilities.check_params(uv):
+            if not utilities.check_params(uv):
                 continue
-            self._tsl_component.vertices[idx].data = self.evaluate_single(uv)
+            param = [d[0] + (p * (d[1] - d[0])) for p, d in zip(uv, dom)]
+            self._tsl_component.vertices[idx].data = self.evaluate_single(param)
 
     def reset(self, **kwargs):
         """ Resets control points and/or evaluated points.
